@@ -4,6 +4,7 @@ import (
 	"fmt"
 	"go/ast"
 	"go/token"
+	"go/types"
 	"sort"
 	"strings"
 )
@@ -118,30 +119,61 @@ func ruleErrorIffDiagnostic(c *Ctx, r *Report, rule string) {
 			r.bad(rule, name, "function not found", "")
 			continue
 		}
+		// in the function itself or in the module function it ends by calling: a parse step (… *Prog, error) whose
+		// error, when non-nil, is returned with no results
 		ok := false
-		for _, s := range fd.Body.List {
-			ifs, isIf := s.(*ast.IfStmt)
-			if !isIf {
-				continue
+		var scan func(d *ast.FuncDecl, depth int)
+		scan = func(d *ast.FuncDecl, depth int) {
+			if d == nil || d.Body == nil || depth > 3 {
+				return
 			}
-			be, isB := stripParens(ifs.Cond).(*ast.BinaryExpr)
-			if !isB || be.Op != token.NEQ {
-				continue
-			}
-			for _, b := range ifs.Body.List {
-				if rs, isR := b.(*ast.ReturnStmt); isR && len(rs.Results) >= 1 {
-					allNil := true
-					for _, e := range rs.Results[:len(rs.Results)-1] {
-						if id, isID := e.(*ast.Ident); !isID || id.Name != "nil" {
-							allNil = false
+			parseErr := map[types.Object]bool{}
+			ast.Inspect(d.Body, func(x ast.Node) bool {
+				if as, isA := x.(*ast.AssignStmt); isA && len(as.Rhs) == 1 && len(as.Lhs) >= 2 {
+					if call, isC := as.Rhs[0].(*ast.CallExpr); isC {
+						if tup, isT := c.typeOf(call).(*types.Tuple); isT && tup.Len() == len(as.Lhs) {
+							first := tup.At(0).Type()
+							if isNamed(first, bclPath, "Prog") || isNamedSlice(first, "Block") {
+								parseErr[c.objOf(as.Lhs[len(as.Lhs)-1])] = true
+							}
 						}
 					}
-					if allNil && c.isObj(rs.Results[len(rs.Results)-1], c.objOf(be.X)) {
+				}
+				return true
+			})
+			ast.Inspect(d.Body, func(x ast.Node) bool {
+				rs, isR := x.(*ast.ReturnStmt)
+				if !isR || len(rs.Results) == 0 {
+					return true
+				}
+				if len(rs.Results) == 1 {
+					if call, isC := rs.Results[0].(*ast.CallExpr); isC {
+						if fn, okF := c.callee(call).(*types.Func); okF && fn.Pkg() != nil && fn.Pkg().Path() == bclPath {
+							scan(c.funcDecls[fn], depth+1)
+						}
+						return true
+					}
+				}
+				allNil := true
+				for _, e := range rs.Results[:len(rs.Results)-1] {
+					if !isNilIdent(e) {
+						allNil = false
+					}
+				}
+				last := rs.Results[len(rs.Results)-1]
+				if !allNil || !parseErr[c.objOf(last)] {
+					return true
+				}
+				for _, f := range splitFacts(c.factsAt(d.Body, rs)) {
+					be, isB := stripParens(f.Cond).(*ast.BinaryExpr)
+					if isB && isNilIdent(be.Y) && (be.Op == token.NEQ) == f.Pos && c.isObj(be.X, c.objOf(last)) {
 						ok = true
 					}
 				}
-			}
+				return true
+			})
 		}
+		scan(fd, 0)
 		r.check(ok, rule, name, "on error: no results, the error", name+" must return no results together with the error when parsing/interpreting failed", c.pos(fd.Pos()))
 	}
 }
